@@ -58,6 +58,7 @@ def configs(w):
         'emptyoutput': b'[snoopy]\noutput = :x\n',
         'emptyoutput2': b'[snoopy]\noutput =\n',
         'emptypathtag': b'[snoopy]\noutput = file:%s/lo%%{}g\nsyslog_ident = %%{}\n' % w.encode(),
+        'bigmax': b'[snoopy]\ndatasource_message_max_length = 1m\nlog_message_max_length = 1m\nmessage_format = %%{cmdline}|%%{env_all}|%%{cwd}\noutput = file:%s/log\n' % w.encode(),
         'filemissingdir': b'[snoopy]\noutput = file:%s/no/such/dir/log\n' % w.encode(),
     }
     return c
@@ -113,7 +114,8 @@ STATES = {
     'stdin_pty': ['stdin pty'],
     'umask777_sigterm_blocked': ['umask 777', 'sigmask 15', 'sigmask 13'],
     'daemon_uid': ['setresgid 1 1 1', 'setresuid 1 1 1'],
-    'fds_above_1023': ['openfds 1100'],       # every descriptor the library opens gets a number beyond FD_SETSIZE
+    'fds_above_1023': ['openfds 1100'],
+    'thread_with_256k_stack': ['onthread 256'],     # the exec is made by a thread with a small stack (limits up to 1 MiB are configurable)       # every descriptor the library opens gets a number beyond FD_SETSIZE
 }
 
 
@@ -177,11 +179,12 @@ def run(ck):
     for sname in [x for x in STATES if x != 'nots']:
         cs = cases if (sname == 'plain' or ck.tier == 'thorough') else reduced
         for c in cfgnames:
-            jobs.append((v['h_exec'], c, configs, cs, len(jobs), ck.workdir, sname))
+            # (bigmax: records of up to 1 MiB each - always the reduced product, the sinks are re-read at every call)
+            jobs.append((v['h_exec'], c, configs, reduced if c == 'bigmax' else cs, len(jobs), ck.workdir, sname))
     # the non-thread-safe build (--disable-thread-safety): every configuration, shape product with one outcome (thorough: full product)
     vn = H.build_exec_harness('c01-nots-asan', ts=False)
     for c in cfgnames:
-        jobs.append((vn['h_exec'], c, configs, cases if ck.tier == 'thorough' else reduced, len(jobs), ck.workdir, 'nots'))
+        jobs.append((vn['h_exec'], c, configs, cases if (ck.tier == 'thorough' and c != 'bigmax') else reduced, len(jobs), ck.workdir, 'nots'))
     vci = H.build_exec_harness('c01ci-ts-asan', compiled_in=True)
     for cn in COMPILED_IN:
         jobs.append((vci['h_exec'], cn, configs, cases if ck.tier == 'thorough' else reduced, len(jobs), ck.workdir, 'plain'))
